@@ -225,7 +225,7 @@ def _db_level(ctx, prog):
         ctx.check(r in covered, "db-sync-registries", r,
                   "FileDb::sync_all/sync_data never reach the maps registered in `%s`" % r, where=where(ap))
         for b, fate in covered.get(r, []):
-            ctx.check(fate <= {"try", "returned"}, "db-sync-result", r,
+            ctx.check(fate <= {"try", "returned", "match-returned"}, "db-sync-result", r,
                       "the result of syncing a map of registry `%s` is %s, not propagated" % (r, sorted(fate)), where=where(ap, b))
     # the two database-level methods pass a closure calling the same-named trait method
     for m in ("sync_all", "sync_data"):
